@@ -38,4 +38,12 @@ PROPS = {
         "theorem_status": {"C08_never_unfences_never_touches_others": "full, for every response of every call (oracle semantics) and hence every crash prefix",
                            "C08_fence_iff / postpone": "full for the decision function; the link 'observed responses -> decision inputs' is the model's read phase, tied to the code by K2 replay"},
     },
+    "C18": {
+        "corr": ["Corr/C18.vo"],
+        "harness": [{"pkg": APP, "test": "TestVerifC18"}],
+        "trusted": ["fake MySQL + in-memory DCS; disk usage is float64 100*used/total in Go and an exact rational in the model: the harness uses total=10000 and thresholds with exact binary representation, so every comparison has the same outcome",
+                    "config Validate/SetDynamicDefaults are not modelled (not_critical <= critical is generated, and the decision is single-valued anyway)"],
+        "assumptions": ["health records and master state are the inputs the manager iteration passes in"],
+        "theorem_status": {"all": "full for the decision function and for every response of every call of the execution part"},
+    },
 }
